@@ -91,6 +91,11 @@ func (c *declChecker) check() []error {
 	if c.decl.IsExternal() && len(c.decl.Modes()) != 1 {
 		c.errs = append(c.errs, fmt.Errorf("external predicate must have exactly one mode"))
 	}
+	for _, mode := range c.decl.Modes() {
+		if len(mode) != len(p.Args) {
+			c.errs = append(c.errs, fmt.Errorf("in decl %v: mode %v does not match the number of arguments", p, mode))
+		}
+	}
 	if !c.decl.IsSynthetic() && len(expectedArgs) > 0 && len(expectedArgs) != len(p.Args) {
 		c.errs = append(c.errs, fmt.Errorf("missing arg atoms for arguments %v", expectedArgs))
 	}
